@@ -192,11 +192,8 @@ class PatmaVisitor(ast.NodeVisitor):
         pattern_val = self.visitor.visit(node.value)
         self.check_impossible_pattern(node, pattern_val)
         if not isinstance(pattern_val, KnownValue):
-            self.visitor.show_error(
-                node,
-                f"Match value is not a literal: {pattern_val}",
-                ErrorCode.internal_error,
-            )
+            # A value pattern may be any dotted name (e.g., "case self.limit:"), so
+            # we may not know the value. We cannot narrow the subject in that case.
             return NULL_CONSTRAINT
 
         return self.make_constraint(
